@@ -1,29 +1,32 @@
 ---------------------------- MODULE TraceWallet ----------------------------
 (* C43, code -> spec.  Every call the driver makes on a real ClientImpl (replays of the Wallet edges and long random
    histories) is logged at its return with arguments and the real outcome:
-     [op, id, p, q, res, rid, same, ids]
+     [op, id, p, q, res, rid, same, ids, f]
    id   account the call addresses (small integer interned from the address by first appearance; 0 = an address that
         was never in the wallet; for new/import the id of the account just created),
    p,q  passwords ("" is the empty password), res "ok" | "fail" | "none", rid the id of the returned account's address,
    same whether the returned private/public key equals the one generated at creation, ids the wallet's account list
-        (from the metadata accessors) after the call.
+        (from the metadata accessors) after the call, f whether the wallet file was made unwritable for this call.
    This module is the MONITOR (WalletProp) alone: live[id] is maintained from the outcomes the code reported, and the
    property operator GetConforms decide every decryption outcome.  Incidental behaviour (labels, default
-   account, ordering, why a call failed) is not constrained, so a refactoring that keeps C43 is accepted.  A
+   account, ordering, why a call failed) is not constrained, so a refactoring that keeps C43 is accepted.  A failed call changes nothing in tl, so the decryption requests
+   that follow a call whose save was made to fail are judged against the passwords from before it (rollback).  A
    non-conforming event does not stop the run: it is printed as <<"BAD", line, reason>> and the monitor goes on, so one
    TLC run judges all concatenated traces (a "reset" event starts a new wallet). *)
 EXTENDS Integers, Sequences, FiniteSets, TLC, TLCExt, Json, WalletProp
 CONSTANT TMax                 \* ids per trace
-VARIABLES tl, l               \* tl: monitor bookkeeping id -> password | Dead
+VARIABLES tl, lst, l          \* tl: monitor bookkeeping id -> password | Dead; lst: account list after the previous call
 TraceLog == ndJsonDeserialize("trace.ndjson")
-tvars == <<tl, l>>
+tvars == <<tl, lst, l>>
 Ev == TraceLog[l]
 TIds == 0..TMax
 IsLive(id) == id \in 1..TMax /\ tl[id] # Dead
 Bad(why) == PrintT(<<"BAD", l, why>>)
 Check(cond, why) == IF cond THEN TRUE ELSE Bad(why)     \* (a disjunction would be split into two successors by TLC)
 Once(t2, ids) == \A id \in 1..TMax : t2[id] # Dead => Cardinality({i \in 1..Len(ids) : ids[i] = id}) = 1
-Listed(t2) == Check(Once(t2, Ev.ids), "live-account-not-listed-once")
+Listed(t2) == /\ Check(Once(t2, Ev.ids), "live-account-not-listed-once")
+              \* a call that fails because the file cannot be written leaves the account list as it was
+              /\ Check((Ev.f /\ Ev.res = "fail") => Ev.ids = lst, "failed-save-changed-the-account-list")
 Upd(t2) == tl' = t2 /\ Listed(t2)
 
 TReset  == Ev.op = "reset" /\ tl' = [i \in TIds |-> Dead]
@@ -53,10 +56,10 @@ TGet    == /\ Ev.op = "get"
                          ELSE "right-password-rejected")
               ELSE TRUE
            /\ Upd(tl)
-TOther  == Ev.op \in {"reopen", "convert", "setdefault", "setlabel"} /\ Upd(tl)
+TOther  == Ev.op \in {"reopen", "convert", "setdefault", "setlabel", "save"} /\ Upd(tl)
 
-TraceInit == TLCSet(1, 1) /\ l = 1 /\ tl = [i \in TIds |-> Dead]
-TraceNext == /\ l <= Len(TraceLog) /\ l' = l + 1
+TraceInit == TLCSet(1, 1) /\ l = 1 /\ tl = [i \in TIds |-> Dead] /\ lst = <<>>
+TraceNext == /\ l <= Len(TraceLog) /\ l' = l + 1 /\ lst' = Ev.ids
              /\ (TReset \/ TCreate \/ TDelete \/ TChPw \/ TGet \/ TOther)
 TraceSpec == TraceInit /\ [][TraceNext]_tvars
 HighWater == TLCSet(1, IF TLCGet(1) < l THEN l ELSE TLCGet(1))
